@@ -179,6 +179,10 @@ pub const CORPUS: &[&str] = &[
     "SELECT id, age FROM users WHERE city IN ('NY', 'LA') AND age NOT IN (20) AND NOT (score IS NULL) ORDER BY id",
     "SELECT a.id, b.amount FROM users AS a JOIN orders AS b ON a.id = b.user_id ORDER BY a.id, b.amount",
     "SELECT a.id AS uid, b.amount AS amt FROM users AS a JOIN orders AS b ON a.id = b.user_id ORDER BY uid, amt",
+    // column aliases declared on CTEs and derived tables (renaming)
+    "WITH t (x, y) AS (SELECT id, age FROM users) SELECT x, y + 1 AS z FROM t ORDER BY x",
+    "WITH a (k, n) AS (SELECT city, count(*) FROM users GROUP BY city), b (k, f) AS (SELECT city, factor FROM regions) SELECT a.k, a.n * b.f AS w FROM a JOIN b ON a.k = b.k",
+    "WITH t (u, total) AS (SELECT user_id, sum(amount) FROM orders GROUP BY user_id) SELECT users.city, t.total FROM users JOIN t ON users.id = t.u",
     // one CTE read twice (a shared node of the relation graph)
     "WITH t AS (SELECT id, age FROM users WHERE age > 20) SELECT a.id, b.age FROM t AS a JOIN t AS b ON a.id = b.id ORDER BY a.id",
     "WITH t AS (SELECT city, count(*) AS c FROM users GROUP BY city) SELECT city, c FROM t UNION ALL SELECT city, c FROM t",
